@@ -328,6 +328,21 @@ ADDED = {
     "C17": "Also: from_str_radix radix range; container taint for indexing program lists; frames held during a call; borrow discipline.",
     "C18": "Also: the index unit of the transpiler's split (char vs byte). Also: the arguments split_string decoded reach the binary writer unchanged (arguments-unchanged); NUL is a sampled class.",
 }
+
+# round 11
+for _k, _v in {
+    "C01": " Also: no compiler function removes or reorders items of compiled code (no-edit).",
+    "C03": " Also: parse_expr returns an expression only behind the type check of the finished tree (typed-tree).",
+    "C05": " Also: the `==` / `!=` handlers push (the negation of) what Primitive::equals returned; nothing compares program values with the derived PartialEq (equality-route).",
+    "C06": " Also: every operand of a folded operator is the child's try_constexpr_eval result (fold-entry operands).",
+    "C09": " Also: no compiler function removes or reorders items of compiled code (no-edit).",
+    "C10": " Also: a plain declaration tests its own constness against a name the function already has (const-over-existing).",
+    "C12": " Also: the dependency walk reads every code-bearing field of the optional forms (visit).",
+    "C13": " Also: remove() / xs[i] succeed only behind the in-range edge of a test of the plain index against len (index-guard).",
+    "C14": " Also: helpers that narrow an integer parameter carrying a program number are evaluated on boundary values (cast int-range).",
+    "C16": " Also: parse_expr returns only type-checked trees (typed-tree), the invariant the counted typing unwraps rest on.",
+}.items():
+    ADDED[_k] = (ADDED.get(_k, "") + _v).strip()
 for _pid, _t in ADDED.items():
     if _pid in CLAIMED and _t not in CLAIMED[_pid]["text"]:
         CLAIMED[_pid]["text"] = CLAIMED[_pid]["text"].rstrip() + " " + _t
